@@ -27,6 +27,13 @@ def step (op res : String) : List String :=
         else ["DIVERGE dom model=every-configured-section-answers",
               s!"FAIL C13 the server was started with sections {secs} and a chain that is {chain}: a request was answered {r6} {r4}, the prepared ADVERTISE / OFFER was expected ({want6} {want4})"]
       | _ => ["DIVERGE drift unparsed-result"]
+  | ["svl2", _k] =>
+    -- a burst of direct DISCOVERs whose replies leave as link-layer unicasts through the real send path (harness/start.go).
+    -- On the loopback interface the frames cannot be built (no hardware address), so nothing is observed but the race
+    -- detector's report, which `./check` reads off the -race build's output.
+    if res.startsWith "ok" then ["br:serve.l2-burst"]
+    else if res.startsWith "skip" then ["br:serve.skip", s!"DIVERGE drift serve engine could not run: {res}"]
+    else ["DIVERGE dom model=serves", s!"FAIL C01 a burst of link-layer replies: {res}", s!"FAIL C16 a burst of link-layer replies: {res}"]
   | proto :: _k :: mode :: procs :: _ =>
     let tag := s!"br:serve.{proto}.{mode}.procs{if procs == "1" then "1" else "n"}"
     if res.startsWith "ok" then
